@@ -486,12 +486,13 @@ func init() {
 				{Pkg: fsm, Func: "VH_C04_open", Args: []int64{0}, Unwind: 64},
 				{Pkg: fsm, Func: "VH_C04_open", Args: []int64{1}, Unwind: 64},
 				{Pkg: fsm, Func: "VH_C04_reopen", Unwind: 64},
+				{Pkg: fsm, Func: "VH_C04_bigbatch", Unwind: 64, EngineOnly: true},
 				{Pkg: fsm, Func: "VH_C04_vacuity", Expect: "violated"},
 			}
 		},
-		Covers: map[string][]string{"VH_C04_open": {"end", "crash-during"}, "VH_C04_reopen": {"end", "crash-during"}},
+		Covers: map[string][]string{"VH_C04_open": {"end", "crash-during"}, "VH_C04_reopen": {"end", "crash-during"}, "VH_C04_bigbatch": {"end", "flushed-on-its-own"}},
 		Bounds: map[string]string{
-			"quick":    "first open (host directory durable beforehand / created by this open) + one applied batch + sync, and reopen of a cleanly closed table (with or without a left-over current.updating) + second batch + sync; crash at each of the first 30 regatta-level file-system operations (the sequences are shorter) or after everything; one crash per run (repeated crashes follow by induction: the post-crash state is again 'table closed, everything volatile lost')",
+			"quick":    "first open (host directory durable beforehand / created by this open) + one applied batch + sync, and reopen of a cleanly closed table (with or without a left-over current.updating) + second batch + sync; crash at each of the first 30 regatta-level file-system operations (the sequences are shorter) or after everything; one crash per run (repeated crashes follow by induction: the post-crash state is again 'table closed, everything volatile lost'); (engine only) one apply call of two entries after a synced one, with Pebble flushing its memtable on its own after any commit and the batch crossing any size threshold after any write, process death right after: index i reopened => exactly entries 1..i visible",
 			"thorough": "same",
 		},
 		Outside: "Pebble's own atomicity (flush + manifest switch; a crash inside a Pebble operation): trusted, the model makes committed content durable exactly at Flush and only if the DB directory entry is durable; snapshot recovery / directory switch-over during RecoverFromSnapshot (the SST ingest / checkpoint payload cannot be encoded); disk errors, torn writes; re-applying entries after the reported index (C03's determinism)",
